@@ -295,11 +295,73 @@ func runClientConnExecution(t *testing.T, seed int64, log *traceLog) {
 		if rng.Intn(3) == 0 {
 			closedAt = nops/2 + rng.Intn(nops/2)
 		}
-		for op := 0; op < nops; op++ {
-			if op == closedAt {
+		// one logged read with a 1 ms deadline: true when a payload came out
+		readLogged := func() bool {
+			_ = relay.SetReadDeadline(time.Now().Add(time.Millisecond))
+			buf := make([]byte, 2000)
+			n, from, err := relay.ReadFrom(buf)
+			if err != nil {
+				log.add(map[string]any{"e": "ReadErr", "err": err.Error()})
+
+				return false
+			}
+			ua, _ := from.(*net.UDPAddr)
+			log.add(map[string]any{"e": "Read", "pay": payID(buf[:n]), "from": srv.peerOf(ua.IP, ua.Port)})
+
+			return true
+		}
+		// a reader blocked in ReadFrom with nothing queued must be woken by its deadline, exactly then,
+		// and by Close
+		blockedRead := func(by string) {
+			for readLogged() {
+			}
+			d := time.Duration(1+rng.Intn(9000)) * time.Millisecond
+			if by == "close" {
+				_ = relay.SetReadDeadline(time.Time{})
+			} else {
+				_ = relay.SetReadDeadline(time.Now().Add(d))
+			}
+			t0 := time.Now()
+			done := make(chan time.Duration, 1)
+			go func() {
+				buf := make([]byte, 2000)
+				_, _, err := relay.ReadFrom(buf)
+				if err == nil {
+					done <- -1
+
+					return
+				}
+				done <- time.Since(t0)
+			}()
+			synctest.Wait()
+			if by == "close" {
+				time.Sleep(d)
 				log.add(map[string]any{"e": "Close"})
 				_ = relay.Close()
 				synctest.Wait()
+			} else {
+				time.Sleep(d + time.Millisecond)
+				synctest.Wait()
+			}
+			select {
+			case took := <-done:
+				log.add(map[string]any{"e": "Woken", "by": by, "ok": took >= 0 && (took-d).Abs() <= time.Millisecond, "after_ms": int(took / time.Millisecond), "want_ms": int(d / time.Millisecond)})
+			default:
+				log.add(map[string]any{"e": "Woken", "by": by, "ok": false, "after_ms": -1, "want_ms": int(d / time.Millisecond)})
+			}
+		}
+		for op := 0; op < nops; op++ {
+			if op == closedAt {
+				if rng.Intn(2) == 0 {
+					blockedRead("close")
+				} else {
+					log.add(map[string]any{"e": "Close"})
+					_ = relay.Close()
+					synctest.Wait()
+				}
+			}
+			if op != closedAt && closedAt != -2 && rng.Intn(25) == 0 && (closedAt < 0 || op < closedAt) {
+				blockedRead("deadline")
 			}
 			switch x := rng.Intn(100); {
 			case x < 45: // WriteTo, possibly concurrent with earlier ones
